@@ -10,36 +10,8 @@
 (* result); the harness runs it through the real interpreter, records the  *)
 (* state after every command and Trace_HyMachine validates that trace.     *)
 (***************************************************************************)
-EXTENDS HyMachine, HyGrammar, TLC, Json
-CONSTANTS Slice, MaxLen, MaxSteps, MaxDigits, DumpOn
-
-H(t) == <<"h", t>>
-Q(l, r) == <<"?", l, r>>
-X(l, r) == <<"!", l, r>>
-CmdSet(K, Hs, Ds, As) == {[k |-> k, h |-> h, d |-> d, a |-> a] : k \in K, h \in Hs, d \in Ds, a \in As}
-
-Alphabet ==
-  CASE Slice = "arith" ->   \* values: fractions, negatives, NaN, products, several operands
-         CmdSet({0}, {1, 2, 3}, {0, 1, 2}, {Nil}) \cup CmdSet({1, 2, 3, 4}, {1, 2, 3}, {1, 3}, {Nil})
-         \cup CmdSet({5}, {1, 2}, {3, 4}, {Nil})
-    [] Slice = "control" -> \* branches against counts 0..4, labels, return jumps, nested areas
-         CmdSet({0}, {1, 2}, {0, 1, 2}, {Nil, H(2)}) \cup CmdSet({1, 3, 4}, {1, 2}, {3}, {Nil})
-         \cup CmdSet({1}, {1}, {1, 3}, {H(2), H(13), Q(Nil, H(2)), Q(H(2), Nil), X(H(4), H(2)), X(Nil, H(13)),
-                                     Q(X(Nil, H(2)), H(4)), Q(Nil, Q(H(2), H(4)))})
-         \cup CmdSet({5}, {1}, {1, 3}, {Nil, H(13), Q(H(2), Nil)})
-    [] Slice = "io" ->      \* stacks 0, 1, 2 as source, destination and selection
-         CmdSet({0}, {1, 2}, {0, 3}, {Nil}) \cup CmdSet({1, 2, 3}, {1, 2}, {0, 1, 2, 3}, {Nil})
-         \cup CmdSet({5}, {1, 2}, {0, 1, 2, 3}, {Nil, H(2), Q(Nil, H(2))})
-         \cup CmdSet({1}, {1}, {1}, {Q(H(2), Nil), X(H(2), Nil)})
-    [] Slice = "io3" ->     \* a narrower I/O alphabet for one more command of depth
-         CmdSet({0}, {1}, {3}, {Nil}) \cup CmdSet({1}, {1, 2}, {0, 1, 2, 3}, {Nil})
-         \cup CmdSet({5}, {1}, {0, 1, 2}, {Nil, Q(Nil, H(2))})
-    [] Slice = "tiny" ->
-         CmdSet({0}, {1, 2}, {1, 3}, {Nil}) \cup CmdSet({1, 3}, {1, 2}, {1, 3}, {Nil, H(2)}) \cup CmdSet({5}, {1}, {1, 2}, {Nil})
-
-Inputs ==
-  IF Slice \in {"io", "io3"} THEN {<<>>, <<97>>, <<10>>, <<97, 10>>, <<97, 98>>, <<65536, 10, 98>>, <<10, 97>>}
-  ELSE {<<>>}
+EXTENDS HyMachine, HyGrammar, HySlices, TLC, Json
+CONSTANTS MaxLen, MaxSteps, MaxDigits, DumpOn
 
 VARIABLES prog, m, steps, input
 vars == <<prog, m, steps, input>>
